@@ -210,12 +210,19 @@ class _Abort(BaseException):
     pass
 
 
+def _sem():
+    """binary semaphore, initially 0 (a raw lock is several times faster than threading.Semaphore)"""
+    l = threading.Lock()
+    l.acquire()
+    return l
+
+
 class Ctl:
     __slots__ = ("tid", "go", "wake", "at", "obj", "finished", "pending_call", "abort", "thread")
 
     def __init__(self, tid, wake):
         self.tid = tid
-        self.go = threading.Semaphore(0)
+        self.go = _sem()
         self.wake = wake
         self.at = None
         self.obj = None
@@ -230,7 +237,7 @@ class Sched:
 
     def __init__(self):
         self.local = threading.local()
-        self.back = threading.Semaphore(0)
+        self.back = _sem()
         self.ctls = {}
         self.history = []
         self.futures = []
@@ -263,7 +270,7 @@ class Sched:
 
     def spawn(self, tid, body):
         """start a controlled thread and let it run to its first yield point (it does nothing observable before)"""
-        started = threading.Semaphore(0)
+        started = _sem()
         ctl = Ctl(tid, started)
         self.ctls[tid] = ctl
 
@@ -594,11 +601,15 @@ class Runner:
         return out
 
 
-def enumerate_schedules(runner, cfg, bound=None, limit=None):
-    """stateless DFS over the REAL system: every maximal schedule (with at most `bound` preemptions) once"""
+def enumerate_schedules(runner, cfg, bound=None, limit=None, rng=None):
+    """stateless DFS over the REAL system: every maximal schedule (with at most `bound` preemptions) exactly once.
+    With a limit the next prefix is drawn at random (seeded), so a truncated enumeration is spread over the tree."""
     todo = [[]]
     out = []
     while todo:
+        if rng is not None and limit is not None and len(todo) > 1:
+            j = rng.randrange(len(todo))
+            todo[j], todo[-1] = todo[-1], todo[j]
         p = todo.pop()
         r = runner.run(cfg, p)
         out.append(r)
@@ -622,7 +633,7 @@ def enumerate_schedules(runner, cfg, bound=None, limit=None):
                 todo.append([x[1] for x in tr[:i]] + [a])
         if limit is not None and len(out) >= limit:
             break
-    return out
+    return out, (len(todo) == 0)
 
 
 # ---------------------------------------------------------------- oracles and comparison
@@ -707,39 +718,108 @@ U3 = list(b"w3")
 BIG = 1048576
 
 
-def configs(tier):
-    """(name, cfg, preemption bound or None) — the property's configuration space, smallest first"""
+def cfg_from_model(cf):
+    """(cfg MAX ((f (b..))..) ((op..)..)) as parsed from the model -> harness tuple"""
+    progs = [[(o[0], o[1], list(o[2])) if o[0] == "upd" else (o[0], o[1]) for o in p] for p in cf[3]]
+    return (cf[1], [(x[0], list(x[1])) for x in cf[2]], progs)
+
+
+def cfg_name(cfg):
+    def opn(o):
+        return "%s%d" % (o[0], o[1])
+    return "||".join(";".join(opn(o) for o in p) for p in cfg[2]) + ("@max%d" % cfg[0] if cfg[0] != BIG else "") + "/disk%d" % len(cfg[1])
+
+
+def plan(chk, rng):
+    """(name, cfg, preemption bound or None, limit or None): the property's configuration space, smallest first"""
+    tier = chk.tier
     g, u, x = (lambda f: ("get", f)), (lambda f, c: ("upd", f, c)), (lambda f: ("unl", f))
     A = [(0, CA)]
     AB = [(0, CA), (1, CB)]
+    q = tier == "quick"
+    lim = 300 if q else 3000
     out = [
-        ("get||upd", (BIG, A, [[g(0)], [u(0, U1)]]), None),
-        ("get||unl", (BIG, A, [[g(0)], [x(0)]]), None),
-        ("upd||unl", (BIG, A, [[u(0, U1)], [x(0)]]), None),
-        ("upd||upd", (BIG, A, [[u(0, U1)], [u(0, U2)]]), None),
-        ("get||get", (BIG, A, [[g(0)], [g(0)]]), None),
-        ("get||upd-new", (BIG, [], [[g(0)], [u(0, U1)]]), None),
-        ("getA||updB", (BIG, AB, [[g(0)], [u(1, U1)]]), None),
-        ("getA||getB-evict", (6, AB, [[g(0)], [g(1)]]), None),
-        ("updA||getB-evict", (6, AB, [[u(0, U1)], [g(1)]]), None),
+        # 2 threads x 1 op, same file: every schedule
+        ("get||upd", (BIG, A, [[g(0)], [u(0, U1)]]), None, None),
+        ("get||unl", (BIG, A, [[g(0)], [x(0)]]), None, None),
+        ("upd||unl", (BIG, A, [[u(0, U1)], [x(0)]]), None, None),
+        ("upd||upd", (BIG, A, [[u(0, U1)], [u(0, U2)]]), None, None),
+        ("get||get", (BIG, A, [[g(0)], [g(0)]]), None, None),
+        ("get||upd-new", (BIG, [], [[g(0)], [u(0, U1)]]), None, None),
+        # two files (independent threads: many interleavings), with and without eviction
+        ("getA||updB", (BIG, AB, [[g(0)], [u(1, U1)]]), 2 if q else 3, lim),
+        ("getA||getB-evict", (6, AB, [[g(0)], [g(1)]]), 2 if q else 3, lim),
+        ("updA||getB-evict", (6, AB, [[u(0, U1)], [g(1)]]), 2 if q else 3, lim),
+        # 2 threads x 2 ops
+        ("upd;get||upd", (BIG, A, [[u(0, U1), g(0)], [u(0, U2)]]), 2 if q else None, lim),
+        ("get;get||upd", (BIG, A, [[g(0), g(0)], [u(0, U1)]]), 2 if q else None, lim),
+        ("upd;upd||get", (BIG, A, [[u(0, U1), u(0, U2)], [g(0)]]), 2 if q else None, lim),
+        ("get;unl||get", (BIG, A, [[g(0), x(0)], [g(0)]]), 2 if q else None, lim),
+        # two files that do not fit together: an entry touched / written while another completion evicts
+        ("getA;getB||getA-evict", (6, AB, [[g(0), g(1)], [g(0)]]), 2 if q else None, lim),
+        ("getA;updA||getB-evict", (6, AB, [[g(0), u(0, U1)], [g(1)]]), 2 if q else None, lim),
+        # 3 threads x 1 op
+        ("upd||upd||get", (BIG, A, [[u(0, U1)], [u(0, U2)], [g(0)]]), 1 if q else 2, lim),
+        ("get||upd||unl", (BIG, A, [[g(0)], [u(0, U1)], [x(0)]]), 1 if q else 2, 200 if q else 3000),
     ]
-    out += [
-        ("upd;get||upd", (BIG, A, [[u(0, U1), g(0)], [u(0, U2)]]), 2),
-        ("get;get||upd", (BIG, A, [[g(0), g(0)], [u(0, U1)]]), 2),
-        ("upd;upd||get", (BIG, A, [[u(0, U1), u(0, U2)], [g(0)]]), 2),
-        ("get;unl||get", (BIG, A, [[g(0), x(0)], [g(0)]]), 2),
-        ("upd||upd||get", (BIG, A, [[u(0, U1)], [u(0, U2)], [g(0)]]), 1),
-    ]
-    if tier == "thorough":
+    # the universes of the theorems (as the extracted model lists them)
+    uni = chk.run_model(["(universe u21)", "(universe u22)", "(universe u31)", "(universe u2112)"])
+    if q:
+        pool = [(nm, c) for nm, U in zip(("U21", "U22", "U31", "U2112"), uni) for c in U]
+        for nm, c in rng.sample(pool, 6):
+            cfg = cfg_from_model(c[0])
+            out.append(("%s:%s" % (nm, cfg_name(cfg)), cfg, 2, 100))
+    else:
+        for c in uni[0]:
+            cfg = cfg_from_model(c[0])
+            out.append(("U21:" + cfg_name(cfg), cfg, None, 150))
+        for nm, U in (("U22", uni[1]), ("U31", uni[2]), ("U2112", uni[3])):
+            for c in U:
+                cfg = cfg_from_model(c[0])
+                out.append(("%s:%s" % (nm, cfg_name(cfg)), cfg, 2, 120))
+        # beyond the theorems: 2x2 on two files, 3 threads x 2 ops (sampled, preemption bound 2)
         out += [
-            ("upd;get||upd;get", (BIG, A, [[u(0, U1), g(0)], [u(0, U2), g(0)]]), 2),
-            ("updA;getB||updB;getA", (BIG, AB, [[u(0, U1), g(1)], [u(1, U2), g(0)]]), 2),
-            ("getA;getB||getB;getA-evict", (6, AB, [[g(0), g(1)], [g(1), g(0)]]), 2),
-            ("upd||upd||upd", (BIG, A, [[u(0, U1)], [u(0, U2)], [u(0, U3)]]), 2),
-            ("get||upd||unl", (BIG, A, [[g(0)], [u(0, U1)], [x(0)]]), 2),
-            ("upd;unl||get||upd", (BIG, A, [[u(0, U1), x(0)], [g(0)], [u(0, U2)]]), 1),
+            ("updA;getB||updB;getA", (BIG, AB, [[u(0, U1), g(1)], [u(1, U2), g(0)]]), 2, 1000),
+            ("getA;getB||getB;getA-evict", (6, AB, [[g(0), g(1)], [g(1), g(0)]]), 2, 1000),
+            ("upd;get||upd;get||upd;get", (BIG, A, [[u(0, U1), g(0)], [u(0, U2), g(0)], [u(0, U3), g(0)]]), 2, 1000),
+            ("upd;unl||get;get||upd;get", (BIG, A, [[u(0, U1), x(0)], [g(0), g(0)], [u(0, U2), g(0)]]), 2, 1000),
         ]
     return out
+
+
+def replay(path):
+    """./check C18 --replay <file>: re-run the recorded schedule on the real cache and on the model, print both"""
+    import json
+    body = json.load(open(path))
+    rep = body.get("replay", {})
+    if "schedule" not in rep or "cfg" not in rep:
+        print(json.dumps(body, indent=1))
+        return 0
+    chk = Check("C18", "quick")
+    chk.generate(generate())
+    chk.build_model()
+    cfg = cfg_from_model(rep["cfg"])
+    work = os.path.join(VERIF, ".work", "C18-%d" % os.getpid())
+    os.makedirs(work, exist_ok=True)
+    try:
+        r = Runner(work).run(cfg, list(rep["schedule"]), policy="stop")
+    finally:
+        shutil.rmtree(work, ignore_errors=True)
+    fin = r.get("final") or {"disk": []}
+    m, lin = chk.run_model([sx(["run", cfg_sx(cfg), list(rep["schedule"])]),
+                            sx(["lin", [[f, list(c)] for f, c in cfg[1]], hist_sx(r.get("history", [])), [[f, c] for f, c in fin["disk"]]])])
+    print("configuration:", sx(cfg_sx(cfg)))
+    print("schedule     :", rep["schedule"], "(thread ids: clients 0..%d, then tasks in submission order)" % (len(cfg[2]) - 1))
+    for i, (en, t, snap) in enumerate(r["trace"]):
+        print("  step %2d thread %d (enabled %r) -> %r" % (i, t, en, snap))
+    print("actual history   :", sx(hist_sx(r.get("history", []))))
+    print("actual           : all returned=%s linearizable=%s quiescent state agrees=%s error=%s" % (
+        r.get("finished"), lin, bool(r.get("final")) and impl_agree(r["final"]), r["error"]))
+    print("expected (spec)  : all returned=True linearizable=1 quiescent state agrees=True")
+    if m[0] == "ok":
+        print("model            : history %s linearizable=%s agree=%s known-class bits=%s" % (sx(m[3][1:]), m[4][1], m[5][1], m[6][1]))
+        print("model vs actual  :", compare_run(r, m) or "identical step for step")
+    return 0
 
 
 def run(tier, replay=None):
@@ -823,22 +903,23 @@ def _run(chk, rng, proof, work):
     # step 2: the witnesses of the _refuted theorems, replayed on the real cache
     wit = chk.run_model(["(witness k1torn)", "(witness k1acct)", "(witness k2)", "(witness k3)"])
     for wname, w in zip(["k1torn", "k1acct", "k2", "k3"], wit):
-        cf = w[1]
-        progs = [[(o[0], o[1], list(o[2])) if o[0] == "upd" else (o[0], o[1]) for o in p] for p in cf[3]]
-        cfg = (cf[1], [(x[0], list(x[1])) for x in cf[2]], progs)
+        cfg = cfg_from_model(w[1])
         r = runner.run(cfg, list(w[2]), policy="stop")
         chk.count("witness_replays")
         judge("witness-" + wname, cfg, [r], "witness")
 
     # step 3: every schedule of the configurations, enumerated on the real cache
-    budget = 2500 if tier == "quick" else 40000
-    for name, cfg, bound in configs(tier):
-        runs = enumerate_schedules(runner, cfg, bound=bound, limit=budget)
+    for name, cfg, bound, limit in plan(chk, rng):
+        runs, complete = enumerate_schedules(runner, cfg, bound=bound, limit=limit, rng=rng)
         chk.count("configurations")
-        if len(runs) >= budget:
+        if complete and bound is None:
+            chk.count("configurations_all_schedules")
+        elif complete:
+            chk.count("configurations_all_schedules_within_preemption_bound")
+        else:
             chk.count("configurations_truncated")
         judge(name, cfg, runs, "enumerated")
-        chk.counters.setdefault("per_config", {})[name] = len(runs)
+        chk.counters.setdefault("per_config", {})[name] = [len(runs), "all" if (complete and bound is None) else ("bound %s" % bound if complete else "sampled %s" % limit)]
 
     for fid, reps in known_hits.items():
         chk.finding(fid, "a client unloaded an in-flight cache entry: %s" % "; ".join(reps[0]["fails"]), reps[0])
@@ -859,4 +940,4 @@ def _run(chk, rng, proof, work):
              "history checked by the extracted verified `linearizable`. distinct_nontrivial = distinct (configuration, history, final file_futures, final memory) with >= 2 operations",
         trusted_base=TRUSTED, assumptions=ASSUME,
         extra={"traces_validated_against_impl": chk.counters.get("traces_validated_against_impl", 0),
-               "exhaustive": chk.counters.get("configurations_truncated", 0) == 0})
+               "exhaustive": False})
